@@ -16,7 +16,7 @@ ASSUMPTIONS = [
     "not modelled, so nothing that depends on it is compared (no R_trace for DFS; solution *sets* only)",
     "unnamed variables (int_var without a name, hidden from results) are generated; for them the returned values "
     "must extend to a solution (verified enumerator); empty domains (lb > ub) are generated (the model then has "
-    "no solution); the theorems about the encoder/DFS carry the hypothesis lb <= ub, the check does not",
+    "no solution)",
     "hints are hard restrictions in the code (domain cut / SAT assumptions); INFEASIBLE is judged against the "
     "solutions compatible with the in-domain hints (DESIGN §4 C05: 'hints only restrict')",
     "failures caused purely by solve_sat (a returned assignment that is not a model of the captured CNF, "
